@@ -237,3 +237,170 @@ pub fn fnv(b: &[u8]) -> u64 {
     }
     h
 }
+
+// ---------------------------------------------------------------------------------------------
+// Rewritings of a components file that must not change what is declared (property C10)
+
+#[derive(Clone, Debug, Default, Serialize, Deserialize)]
+pub struct Rewrite {
+    pub shuffle: bool,
+    /// split some lines into 2-3 lines with the same tags whose values add up to the original
+    pub split: bool,
+    /// consistent renumbering of system ids
+    pub renumber: bool,
+    pub comments: bool,
+    pub blank_lines: bool,
+    pub header: bool,
+    pub bom: bool,
+    pub padding: bool,
+    /// omit the id of id-0 CONSUMO / PRODUCCION / AUX lines (legacy form)
+    pub omit_id0: bool,
+    pub seed: u64,
+}
+
+impl Rewrite {
+    pub fn names(&self) -> Vec<&'static str> {
+        let mut v = vec![];
+        for (f, n) in [
+            (self.shuffle, "shuffle"),
+            (self.split, "split"),
+            (self.renumber, "renumber"),
+            (self.comments, "comments"),
+            (self.blank_lines, "blank_lines"),
+            (self.header, "header"),
+            (self.bom, "bom"),
+            (self.padding, "padding"),
+            (self.omit_id0, "omit_id0"),
+        ] {
+            if f {
+                v.push(n);
+            }
+        }
+        v
+    }
+}
+
+/// split a value into two parts on the same grid (1/8 for dyadic values, 0.01 otherwise) that add up to it
+fn split_value(x: f32, f: f64) -> (f32, f32) {
+    if x == 0.0 {
+        return (0.0, 0.0);
+    }
+    let dy = (x * 8.0).fract() == 0.0;
+    let g = if dy { 8.0 } else { 100.0 };
+    let units = (x as f64 * g).round();
+    let a = (units * f).trunc();
+    let b = units - a;
+    ((a / g) as f32, (b / g) as f32)
+}
+
+impl Spec {
+    /// the declared data after the rewriting, as a new Spec (lines split / renumbered / reordered)
+    pub fn rewritten(&self, rw: &Rewrite) -> Spec {
+        let mut r = crate::rng::Rng::new(rw.seed);
+        let mut s = self.clone();
+        if rw.split {
+            let mut out = vec![];
+            for l in s.lines.into_iter() {
+                if r.chance(1, 2) {
+                    let f1 = r.range_f(0.1, 0.9);
+                    let mut a = l.clone();
+                    let mut b = l.clone();
+                    let parts: Vec<(f32, f32)> = l.values().iter().map(|x| split_value(*x, f1)).collect();
+                    *a.values_mut() = parts.iter().map(|p| p.0).collect();
+                    *b.values_mut() = parts.iter().map(|p| p.1).collect();
+                    if r.chance(1, 3) {
+                        // three parts
+                        let f2 = r.range_f(0.2, 0.8);
+                        let mut c = b.clone();
+                        let parts2: Vec<(f32, f32)> = b.values().iter().map(|x| split_value(*x, f2)).collect();
+                        *b.values_mut() = parts2.iter().map(|p| p.0).collect();
+                        *c.values_mut() = parts2.iter().map(|p| p.1).collect();
+                        out.push(c);
+                    }
+                    out.push(a);
+                    out.push(b);
+                } else {
+                    out.push(l);
+                }
+            }
+            s.lines = out;
+        }
+        if rw.renumber {
+            let mut ids: Vec<i32> = s.lines.iter().filter_map(|l| l.id()).collect();
+            ids.sort();
+            ids.dedup();
+            let mut pool: Vec<i32> = vec![0, 1, 2, 3, 4, 5, 6, 8, 9, 10, 11, 40, 100, 1000, -1, -2, -3, -10, -2147483648, 2147483647, 12345];
+            r.shuffle(&mut pool);
+            let map: std::collections::BTreeMap<i32, i32> = ids.iter().enumerate().map(|(i, id)| (*id, pool[i % pool.len()])).collect();
+            for l in s.lines.iter_mut() {
+                if let Some(id) = l.id_mut() {
+                    *id = map[id];
+                }
+            }
+        }
+        if rw.shuffle {
+            r.shuffle(&mut s.lines);
+        }
+        s
+    }
+
+    /// text of `self` with the purely textual rewritings applied
+    pub fn render_rewritten(&self, rw: &Rewrite) -> String {
+        let mut r = crate::rng::Rng::new(rw.seed ^ 0xABCDEF);
+        let mut s = String::new();
+        if rw.bom {
+            s.push('\u{feff}');
+        }
+        for (k, v) in &self.meta {
+            s.push_str(&format!("#META {}: {}\n", k, v));
+        }
+        if rw.header {
+            s.push_str("vector, tipo, src_dst, 1, 2, 3\n");
+        }
+        for l in &self.lines {
+            if rw.comments && r.chance(1, 3) {
+                s.push_str(*r.pick(&["# comentario", "#", "# 1, CONSUMO, ACS, ELECTRICIDAD, 10", "#   <&> ñ"]));
+                s.push('\n');
+            }
+            if rw.blank_lines && r.chance(1, 3) {
+                s.push_str(*r.pick(&["\n", "   \n", "\t\n"]));
+            }
+            let with_id = !(rw.omit_id0 && l.id() == Some(0) && matches!(l, Line::Used { .. } | Line::Prod { .. } | Line::Aux { .. }));
+            let mut txt = l.render(with_id);
+            if rw.comments && l.comment().is_empty() && !matches!(l, Line::Need { .. }) && r.chance(1, 3) {
+                // a trailing comment on a line that had none (not one of the tags the DHW indicator reads)
+                txt.push_str(" # añadido <x> & \"y\"");
+            }
+            if rw.padding {
+                let (body, comment) = match txt.split_once('#') {
+                    Some((b, c)) => (b.to_string(), Some(c.to_string())),
+                    None => (txt.clone(), None),
+                };
+                let padded: Vec<String> = body
+                    .split(',')
+                    .map(|f| {
+                        let f = f.trim();
+                        match r.below(4) {
+                            0 => format!("  {f}  "),
+                            1 => format!("\t{f}"),
+                            2 => format!("{f} "),
+                            _ => f.to_string(),
+                        }
+                    })
+                    .collect();
+                txt = padded.join(",");
+                if let Some(c) = comment {
+                    txt.push_str(" #");
+                    txt.push_str(&c);
+                }
+                txt = format!("{}{}{}", r.pick(&["", " ", "\t", "    "]), txt, r.pick(&["", " ", "\t"]));
+            }
+            s.push_str(&txt);
+            s.push_str(if rw.padding && r.chance(1, 4) { "\r\n" } else { "\n" });
+        }
+        if rw.blank_lines {
+            s.push_str("\n\n");
+        }
+        s
+    }
+}
